@@ -20,7 +20,7 @@ from .core import log, Infra
 
 
 class ModelRun:
-    def __init__(self, module, cfg, workers=8, xmx='8g', timeout=900, simulate=None, note=''):
+    def __init__(self, module, cfg, workers=8, xmx='8g', timeout=600, simulate=None, note=''):
         self.module, self.cfg, self.workers, self.xmx, self.timeout, self.simulate, self.note = module, cfg, workers, xmx, timeout, simulate, note
         self.hint = {}
         self.expect = None
@@ -218,7 +218,12 @@ def run_check(cd, tier, seed, write=True):
         pbjobs = []
         for (prog, params, n, pol) in cd.programs[tier]:
             # budgets: what TLC can validate in reasonable time on 16 cores (a thorough run stays in the tens of minutes)
-            n = min(n, (40000 if tier == 'thorough' else 6000) if pol.startswith('pb') else (12000 if tier == 'thorough' else n))
+            if tier == 'thorough':
+                n = min(n, 15000 if pol.startswith('pb') else 5000)
+                if label != 'plain':
+                    n = max(200, n // 3)           # the sanitizer build is several times slower
+            elif pol.startswith('pb'):
+                n = min(n, 6000)
             args = list(cd.harness_args) + ['prog=' + prog] + ['%s=%s' % kv for kv in params.items()]
             if pol.startswith('pb'):
                 # exhaustive enumeration of all schedules with at most K preemptions (n = cap); one process per program
